@@ -330,6 +330,25 @@ def run(ctx):
                     if d_[0] == 'assign' and d_[3]['r'] == 'use' and d_[3]['a'].get('o') in ('copy', 'move') and not d_[3]['a']['pl']['p'] and d_[3]['a']['pl']['l'] in acc_locals:
                         acc_locals.add(l_)
                         changed_ = True
+        # the pair sums whose extremes make the constant (and the offset main.rs prints with) are *path* sums: Gambit adds
+        # the outcome of every node on the way to a leaf. An extreme folded over the outcome table's own entries (one pair
+        # per outcome number) is another quantity whenever an interior node carries an outcome.
+        per_outcome, per_path = [], 0
+        for bi, t, e in q.calls_named(gg, 'min') + q.calls_named(gg, 'max'):
+            if 'f64' not in e[1] or len(e[2]) != 2:
+                continue
+            for a_ in e[2]:
+                a_ = norm(strip_refs(a_))
+                if q.find_sub(a_, lambda x: x[0] == 'bin' and x[1] in ('Add', 'Sub')) is None:
+                    continue    # a running extreme itself, or a single component (the scale of the tolerance)
+                if any(y[0] == 'var' and y[1] in acc_locals for y in facts.walk(a_)):
+                    per_path += 1
+                elif q.find_sub(a_, lambda x: x[0] == 'call' and 'HashMap' in x[1] and short(x[1]) in ('values', 'iter', 'into_values', 'values_mut', 'into_iter', 'get')) is not None:
+                    per_outcome.append((gg.where(bi), facts.show(a_)[:70]))
+        if acc_locals and (per_path or per_outcome):
+            ctx.verdict(not per_outcome, rule, rule + ':extremes-over-path-sums', 'the extremes of the pair sums (the constant, and the offset added to player two\'s utility) are taken over sums accumulated along a path, never over the entries of the outcome table',
+                        gg.where(0), '%d update(s) from the per-path accumulator; from the outcome table itself: %s' % (per_path, per_outcome),
+                        breaks='with an outcome on an interior node that spells no payoffs the offset is the per-outcome constant, not the cumulative one: the two printed utilities no longer add up to the file\'s constant (or a valid file is rejected as not constant sum)')
         stale = []
         n_q = 0
         for bi, t, e in q.calls_named(gg, 'extend'):
@@ -448,6 +467,23 @@ def run(ctx):
         ok = bool(ends) and all(any(f.dominates(d, e) for e in ends) for d, _ in des)
         ctx.verdict(ok, rule, '%s:%s' % (rule, q.top(f.name)), 'a hand-rolled serde_json::Deserializer must be followed by end(): trailing bytes after the first JSON value are an error (serde_json::from_str / from_reader do this themselves)',
                     f.where(des[0][0]), 'deserialize() through a raw Deserializer, end() called afterwards: %s' % ok, breaks='malformed input (a valid game followed by garbage) is solved instead of rejected')
+    # the stream form: `Deserializer::from_reader(r).into_iter::<T>().next()` hands back the first value and never looks at
+    # the rest of the input (there is no end() to call on a StreamDeserializer); only a second `next()` that must be
+    # `None` could reject trailing bytes — that shape is not decided, a single pull is a prefix parse
+    for f in b.non_test_fns():
+        streams = [(bi, t) for bi, t, p in f.calls() if not t.get('exp') and 'serde_json' in (p or '') and (short(p) == 'into_iter' and 'Deserializer' in p or 'StreamDeserializer' in p and short(p) == 'next')]
+        if not streams:
+            continue
+        ctx.touch(f)
+        pulls = [bi for bi, t, p in f.calls() if 'StreamDeserializer' in (p or '') and short(p) in ('next', 'count', 'last', 'nth', 'collect', 'try_for_each', 'for_each', 'fold', 'all', 'any')]
+        in_loop = any(bi in body for bi in pulls for _h, body in f.loops)
+        key = '%s:stream:%s' % (rule, q.top(f.name))
+        if len(pulls) > 1 or in_loop:
+            ctx.anchor_lost(rule, 'single pull from a serde_json stream deserializer in %s' % q.top(f.name), '(pulled more than once: whether a second value / trailing bytes are rejected is not decided)')
+            continue
+        ctx.verdict(False, rule, key, 'a JSON game definition must be the whole input: serde_json::from_reader / from_str reject bytes after the first value, the first item of a stream deserializer does not',
+                    f.where(streams[0][0]), 'the definition is the first item of Deserializer::into_iter(); nothing reads (or rejects) what follows it',
+                    breaks='malformed input (a valid game followed by garbage, or two concatenated definitions) is solved with exit status 0 instead of a json-error')
     # ---------------- (4) diagnostics <-> README
     rule = 'C17.readme-anchors'
     heads = readme_error_headings(ctx.repo)
